@@ -472,10 +472,15 @@ func mxResponses() mxObj {
 
 // mxSecurity: one operation per security structure (scheme kind and location, conjunction, alternatives, optional,
 // none, inherited from the document).
-func mxSecurity() mxObj {
+func mxSecurity(commonError bool) mxObj {
 	paths := mxObj{}
 	add := func(name string, sec any) {
-		op := mxObj{"operationId": name, "responses": mxOK(), "parameters": []any{
+		resp := mxOK()
+		if commonError {
+			// every operation has the same default response: the generator's "convenient errors" (Handler.NewError)
+			resp["default"] = mxObj{"$ref": "#/components/responses/Error"}
+		}
+		op := mxObj{"operationId": name, "responses": resp, "parameters": []any{
 			mxObj{"name": "q", "in": "query", "required": true, "schema": mxObj{"type": "string"}},
 			mxObj{"name": "X-Note", "in": "header", "schema": mxObj{"type": "string"}},
 		}}
@@ -513,6 +518,11 @@ func mxSecurity() mxObj {
 		"oauth":     mxObj{"type": "oauth2", "flows": mxObj{"clientCredentials": mxObj{"tokenUrl": "https://auth.sim.test/token", "scopes": mxObj{"read": "read things", "write": "write things"}}}},
 	}})
 	d["security"] = []any{mxObj{"bearer": []any{}}}
+	if commonError {
+		comps := d["components"].(mxObj)
+		comps["responses"] = mxObj{"Error": mxObj{"description": "error", "content": mxObj{"application/json": mxObj{"schema": mxObj{"$ref": "#/components/schemas/Error"}}}}}
+		comps["schemas"] = mxObj{"Error": mxObj{"type": "object", "required": []any{"message"}, "properties": mxObj{"message": mxObj{"type": "string"}, "code": mxObj{"type": "integer"}}}}
+	}
 	return d
 }
 
@@ -528,7 +538,7 @@ func WriteMatrix(dir string) []string {
 	docs := []struct {
 		name string
 		doc  mxObj
-	}{{"mx_params", mxParams()}, {"mx_bodies", mxBodies()}, {"mx_responses", mxResponses()}, {"mx_security", mxSecurity()}}
+	}{{"mx_params", mxParams()}, {"mx_bodies", mxBodies()}, {"mx_responses", mxResponses()}, {"mx_security", mxSecurity(false)}, {"mx_secerr", mxSecurity(true)}}
 	var out []string
 	for _, d := range docs {
 		b, err := json.MarshalIndent(d.doc, "", " ")
